@@ -21,23 +21,33 @@ theorem newKnownValue_wf (v : Nat) : WF h (newKnownValue h v) := by simp [newKno
 
 theorem newAssertion_wf {p o : Env} (hp : WF h p) (ho : WF h o) : WF h (newAssertion h p o) := by
   simp [newAssertion, hp, ho]
+example : WF toyHash (newAssertion toyHash sA1 sNode) := newAssertion_wf _ sA1_inv.1 sNode_inv.1
 
 theorem newWrapped_wf {e : Env} (he : WF h e) : WF h (newWrapped h e) := by simp [newWrapped, he]
+example : WF toyHash (newWrapped toyHash sNode) := newWrapped_wf _ sNode_inv.1
 
 theorem newElided_wf (d : Digest) : WF h (newElided d) := by simp [newElided]
 
 theorem mkNode_wf_of {s : Env} {as : List Env} (hs : WF h s) (has : ∀ a ∈ as, WF h a) :
     WF h (mkNode h s as) := (mkNode_wf h).2 ⟨hs, (WFList_iff h as).2 has⟩
+example : WF toyHash (mkNode toyHash sSubj [sA1, sA2, sA3]) :=
+  mkNode_wf_of _ sSubj_inv.1 (by simp [sA1_inv.1, sA2_inv.1, sA3_inv.1])
 
 theorem newNodeUnchecked_wf {s r : Env} {as : List Env} (hs : WF h s) (has : ∀ a ∈ as, WF h a)
     (hr : newNodeUnchecked h s as = .ok r) : WF h r := by
   obtain ⟨_, rfl⟩ := (newNodeUnchecked_ok h).1 hr
   exact mkNode_wf_of h hs has
+example : ∃ r, newNodeUnchecked toyHash sSubj [sA1, sA2] = .ok r ∧ WF toyHash r :=
+  ⟨_, rfl, newNodeUnchecked_wf _ (as := [sA1, sA2]) sSubj_inv.1 (by simp [sA1_inv.1, sA2_inv.1]) rfl⟩
 
 theorem newNode_wf {s r : Env} {as : List Env} (hs : WF h s) (has : ∀ a ∈ as, WF h a)
     (hr : newNode h s as = .ok r) : WF h r := by
   obtain ⟨_, _, rfl⟩ := (newNode_ok h).1 hr
   exact mkNode_wf_of h hs has
+example : ∃ r, newNode toyHash sSubj [sA1, sA2] = .ok r ∧ WF toyHash r := by
+  have hr := (newNode_ok toyHash (s := sSubj) (as := [sA1, sA2])).2
+    ⟨by simp [sA_slotOk], by simp, rfl⟩
+  exact ⟨_, hr, newNode_wf _ sSubj_inv.1 (by simp [sA1_inv.1, sA2_inv.1]) hr⟩
 
 /-! ### 2. operations preserve `WF` -/
 
@@ -60,6 +70,9 @@ theorem addAssertionEnvelope_wf {e a r : Env} (he : WF h e) (ha : WF h a)
         · simp only [List.mem_singleton] at hx; subst hx; exact ha
     · obtain ⟨_, rfl⟩ := (newNodeUnchecked_ok h).1 hr
       exact (mkNode_wf h).2 ⟨wf_subject he, by simpa using ha⟩
+example : ∃ r, addAssertionEnvelope toyHash sNode sA3 = .ok r ∧ WF toyHash r := by
+  obtain ⟨r, hr⟩ := addAssertionEnvelope_isOk toyHash (e := sNode) sA_slotOk.2.2
+  exact ⟨r, hr, addAssertionEnvelope_wf _ sNode_inv.1 sA3_inv.1 hr⟩
 
 theorem removeAssertion_wf {e t r : Env} (he : WF h e) (hr : removeAssertion h e t = .ok r) :
     WF h r := by
@@ -74,17 +87,26 @@ theorem removeAssertion_wf {e t r : Env} (he : WF h e) (hr : removeAssertion h e
       rw [WFList_iff] at *
       exact fun x hx => this x (List.mem_of_mem_eraseIdx hx)
   · injection hr with hr; subst hr; exact he
+example : ∃ r, removeAssertion toyHash sNode sA1 = .ok r ∧ WF toyHash r := by
+  obtain ⟨r, hr⟩ := removeAssertion_isOk toyHash sNode sA1
+  exact ⟨r, hr, removeAssertion_wf _ sNode_inv.1 hr⟩
 
 theorem replaceAssertion_wf {e a b r : Env} (he : WF h e) (hb : WF h b)
     (hr : replaceAssertion h e a b = .ok r) : WF h r := by
   obtain ⟨e', h1, h2⟩ := Res.bind_eq_ok.1 hr
   exact addAssertionEnvelope_wf h (removeAssertion_wf h he h1) hb h2
+example : ∃ r, replaceAssertion toyHash sNode sA1 sA3 = .ok r ∧ WF toyHash r := by
+  obtain ⟨r, hr⟩ := replaceAssertion_isOk toyHash sNode sA1 sA_slotOk.2.2
+  exact ⟨r, hr, replaceAssertion_wf _ sNode_inv.1 sA3_inv.1 hr⟩
 
 theorem addAll_wf {e r : Env} {as : List Env} (he : WF h e) (has : ∀ a ∈ as, WF h a)
     (hr : addAll h e as = .ok r) : WF h r :=
   foldl_bind_inv (P := WF h) (Q := WF h) (fun x a => addAssertionEnvelope h x a)
     (fun _ _ _ hx ha hs => addAssertionEnvelope_wf h hx ha hs) as (.ok e) r
     (fun x hx => by injection hx with hx; subst hx; exact he) has hr
+example : ∃ r, addAll toyHash sNode [sA3, sA1] = .ok r ∧ WF toyHash r := by
+  obtain ⟨r, hr⟩ := addAll_isOk toyHash [sA3, sA1] sNode (by simp [sA_slotOk])
+  exact ⟨r, hr, addAll_wf _ sNode_inv.1 (by simp [sA3_inv.1, sA1_inv.1]) hr⟩
 
 theorem replaceSubject_wf {e s r : Env} (he : WF h e) (hs : WF h s)
     (hr : replaceSubject h e s = .ok r) : WF h r := by
@@ -101,8 +123,13 @@ theorem replaceSubject_wf {e s r : Env} (he : WF h e) (hs : WF h s)
     exact addAssertionEnvelope_wf h hx ha hy
   · cases hstep
   · cases hstep
+example : ∃ r, replaceSubject toyHash sNode sA3 = .ok r ∧ WF toyHash r := by
+  obtain ⟨r, hr⟩ := replaceSubject_isOk toyHash (e := sNode) sA3
+    (by simp [sNode, Env.assertions, sA_slotOk])
+  exact ⟨r, hr, replaceSubject_wf _ sNode_inv.1 sA3_inv.1 hr⟩
 
 theorem wrap_wf {e : Env} (he : WF h e) : WF h (wrap h e) := newWrapped_wf h he
+example : WF toyHash (wrap toyHash sNode) := wrap_wf _ sNode_inv.1
 
 theorem unwrap_wf {e r : Env} (he : WF h e) (hr : unwrap e = .ok r) : WF h r := by
   unfold unwrap at hr
@@ -112,8 +139,11 @@ theorem unwrap_wf {e r : Env} (he : WF h e) (hr : unwrap e = .ok r) : WF h r := 
     injection hr with hr; subst hr
     rw [heq] at hs; exact ((WF_wrapped h _ _).1 hs).1
   · cases hr
+example : ∃ r, unwrap (wrap toyHash sNode) = .ok r ∧ WF toyHash r :=
+  ⟨sNode, rfl, unwrap_wf _ (wrap_wf _ sNode_inv.1) rfl⟩
 
 theorem subject_wf {e : Env} (he : WF h e) : WF h e.subject := wf_subject he
+example : WF toyHash sNode.subject := subject_wf _ sNode_inv.1
 
 theorem elide_wf (e : Env) : WF h (elide e) := by
   unfold elide; split <;> simp [newElided]
@@ -193,9 +223,23 @@ theorem elideSetList_wf (T : Digest → Bool) (rev : Bool) (act : Action) :
     · cases hr
     · cases hr
 end
+example : ∃ r, elideSet toyHash idAead idDeflate sTarget false .elide sNode = .ok r ∧ WF toyHash r := by
+  obtain ⟨r, hr⟩ := sElideSet_ok.1
+  exact ⟨r, hr, elideSet_wf _ _ _ _ _ _ _ _ sNode_inv.1 hr⟩
+example : ∃ r, elideSet toyHash idAead idDeflate sTarget false .compress sNode = .ok r ∧ WF toyHash r := by
+  obtain ⟨r, hr⟩ := sElideSet_ok.2.1
+  exact ⟨r, hr, elideSet_wf _ _ _ _ _ _ _ _ sNode_inv.1 hr⟩
+example : ∃ r, elideSet toyHash idAead idDeflate sTarget false sEncAct sNode = .ok r ∧ WF toyHash r := by
+  obtain ⟨r, hr⟩ := sElideSet_ok.2.2.1
+  exact ⟨r, hr, elideSet_wf _ _ _ _ _ _ _ _ sNode_inv.1 hr⟩
+example : ∃ r, elideSet toyHash idAead idDeflate sTarget true .elide sNode = .ok r ∧ WF toyHash r := by
+  obtain ⟨r, hr⟩ := sElideSet_ok.2.2.2
+  exact ⟨r, hr, elideSet_wf _ _ _ _ _ _ _ _ sNode_inv.1 hr⟩
 
 theorem compress_wf {e r : Env} (hr : compress Z e = .ok r) : WF h r := by
   obtain ⟨c, rfl⟩ := compress_ok Z hr; simp
+example : ∃ r, compress idDeflate sNode = .ok r ∧ WF toyHash r :=
+  ⟨_, rfl, compress_wf _ _ (e := sNode) rfl⟩
 
 theorem compressSubject_wf {e r : Env} (he : WF h e) (hr : compressSubject h Z e = .ok r) :
     WF h r := by
@@ -204,6 +248,12 @@ theorem compressSubject_wf {e r : Env} (he : WF h e) (hr : compressSubject h Z e
   · injection hr with hr; subst hr; exact he
   · obtain ⟨s, h1, h2⟩ := Res.bind_eq_ok.1 hr
     exact replaceSubject_wf h he (compress_wf h Z h1) h2
+example : ∃ r, compressSubject toyHash idDeflate sNode = .ok r ∧ WF toyHash r := by
+  obtain ⟨r, hr⟩ := replaceSubject_isOk toyHash (e := sNode)
+    (.compressed (compressedOf idDeflate (encode sSubj)) sSubj.digest)
+    (by simp [sNode, Env.assertions, sA_slotOk])
+  have hr' : compressSubject toyHash idDeflate sNode = .ok r := hr
+  exact ⟨r, hr', compressSubject_wf _ _ sNode_inv.1 hr'⟩
 
 theorem encryptSubject_wf {key nonce : Bytes} {e r : Env} (he : WF h e)
     (hr : encryptSubject h A key nonce e = .ok r) : WF h r := by
@@ -238,6 +288,9 @@ theorem encryptSubject_wf {key nonce : Bytes} {e r : Env} (he : WF h e)
       · cases hr
     · cases hr
     · cases hr
+example : ∃ r, encryptSubject toyHash idAead [1] [2] sNode = .ok r ∧ WF toyHash r := by
+  obtain ⟨r, hr⟩ := sEncryptSubject_ok
+  exact ⟨r, hr, encryptSubject_wf _ _ sNode_inv.1 hr⟩
 
 theorem encryptWhole_wf {key nonce : Bytes} {e r : Env} (he : WF h e)
     (hr : encryptWhole h A key nonce e = .ok r) : WF h r := by
@@ -247,12 +300,19 @@ theorem encryptWhole_wf {key nonce : Bytes} {e r : Env} (he : WF h e)
     exact encryptSubject_wf h A (wrap_wf h he) hr'
   · cases hr
   · cases hr
+example : ∃ r, encryptWhole toyHash idAead [1] [2] sNode = .ok r ∧ WF toyHash r := by
+  obtain ⟨r, hr⟩ := sEncryptWhole_ok
+  exact ⟨r, hr, encryptWhole_wf _ _ sNode_inv.1 hr⟩
 
 theorem unelide_wf {p e r : Env} (he : WF h e) (hr : unelide p e = .ok r) : WF h r := by
   unfold unelide at hr
   split at hr
   · injection hr with hr; subst hr; exact he
   · cases hr
+example : ∃ r, unelide (elide sNode) sNode = .ok r ∧ WF toyHash r := by
+  have hd : (elide sNode).digest = sNode.digest := rfl
+  have hr : unelide (elide sNode) sNode = .ok sNode := by simp [unelide, hd]
+  exact ⟨sNode, hr, unelide_wf _ sNode_inv.1 hr⟩
 
 /-! ### 2b. operations that decode bytes return `WF` envelopes -/
 
@@ -264,6 +324,9 @@ theorem decodeEncrypted_wf {item : Cbor} {e : Env} (he : decodeEncrypted item = 
   all_goals first
     | (injection he with he; subst he; simpa using ‹_ = some _›)
     | cases he
+example : ∃ e, decodeEncrypted (encMsgCbor sMsg) = .ok e ∧ WF toyHash e := by
+  obtain ⟨e, he⟩ := sDecodeParts_ok.1
+  exact ⟨e, he, decodeEncrypted_wf _ he⟩
 
 theorem decodeCompressed_wf {item : Cbor} {e : Env} (he : decodeCompressed item = .ok e) : WF h e := by
   unfold decodeCompressed at he
@@ -271,6 +334,10 @@ theorem decodeCompressed_wf {item : Cbor} {e : Env} (he : decodeCompressed item 
   all_goals first
     | (injection he with he; subst he; simp)
     | cases he
+example : ∃ e, decodeCompressed (compMsgCbor (compressedOf idDeflate (encode sA3)) sA3.digest) = .ok e ∧
+    WF toyHash e := by
+  obtain ⟨e, he⟩ := sDecodeParts_ok.2.1
+  exact ⟨e, he, decodeCompressed_wf _ he⟩
 
 mutual
 theorem envOfCbor_wf : (c : Cbor) → (e : Env) → envOfCbor h c = .ok e → WF h e
@@ -351,6 +418,9 @@ theorem envOfCborList_wf : (cs : List Cbor) → (es : List Env) → envOfCborLis
     · cases he
     · cases he
 end
+example : ∃ e, envOfCbor toyHash (cborOf sA3) = .ok e ∧ WF toyHash e := by
+  obtain ⟨e, he⟩ := sDecodeParts_ok.2.2.1
+  exact ⟨e, he, envOfCbor_wf _ _ _ he⟩
 
 theorem envOfTaggedCbor_wf {c : Cbor} {e : Env} (he : envOfTaggedCbor h c = .ok e) : WF h e := by
   unfold envOfTaggedCbor at he
@@ -358,12 +428,18 @@ theorem envOfTaggedCbor_wf {c : Cbor} {e : Env} (he : envOfTaggedCbor h c = .ok 
   all_goals first
     | exact envOfCbor_wf h _ _ he
     | cases he
+example : ∃ e, envOfTaggedCbor toyHash (taggedCborOf sA3) = .ok e ∧ WF toyHash e := by
+  obtain ⟨e, he⟩ := sDecodeParts_ok.2.2.2
+  exact ⟨e, he, envOfTaggedCbor_wf _ he⟩
 
 theorem decode_wf {b : Bytes} {e : Env} (he : decode h b = .ok e) : WF h e := by
   unfold decode at he
   split at he
   · exact envOfTaggedCbor_wf h he
   · cases he
+example : ∃ r, decode toyHash (encode sA3) = .ok r ∧ WF toyHash r := by
+  obtain ⟨r, hr⟩ := sDecode_ok
+  exact ⟨r, hr, decode_wf _ hr⟩
 
 theorem uncompress_wf {e r : Env} (hr : uncompress h Z e = .ok r) : WF h r := by
   unfold uncompress at hr
@@ -378,6 +454,9 @@ theorem uncompress_wf {e r : Env} (hr : uncompress h Z e = .ok r) : WF h r := by
       · cases hr
       · cases hr
   · cases hr
+example : ∃ r, uncompress toyHash idDeflate sComp = .ok r ∧ WF toyHash r := by
+  obtain ⟨r, hr⟩ := sUncompress_ok
+  exact ⟨r, hr, uncompress_wf _ _ hr⟩
 
 theorem uncompressSubject_wf {e r : Env} (he : WF h e) (hr : uncompressSubject h Z e = .ok r) :
     WF h r := by
@@ -389,6 +468,9 @@ theorem uncompressSubject_wf {e r : Env} (he : WF h e) (hr : uncompressSubject h
     · exact newNodeUnchecked_wf h hs ((WFList_iff h _).1 ((WF_node h _ _ _).1 he).2.1) h2
     · injection h2 with h2; subst h2; exact hs
   · injection hr with hr; subst hr; exact he
+example : ∃ r, uncompressSubject toyHash idDeflate sNodeC = .ok r ∧ WF toyHash r := by
+  obtain ⟨r, hr⟩ := sUncompressSubject_ok
+  exact ⟨r, hr, uncompressSubject_wf _ _ sNodeC_inv.1 hr⟩
 
 theorem decryptSubject_wf {key : Bytes} {e r : Env} (he : WF h e)
     (hr : decryptSubject h A key e = .ok r) : WF h r := by
@@ -417,11 +499,17 @@ theorem decryptSubject_wf {key : Bytes} {e r : Env} (he : WF h e)
         · cases hr
         · cases hr
   · cases hr
+example : ∃ r, decryptSubject toyHash idAead [1] sEnc = .ok r ∧ WF toyHash r := by
+  obtain ⟨r, hr⟩ := sDecryptSubject_ok
+  exact ⟨r, hr, decryptSubject_wf _ _ sEnc_inv.1 hr⟩
 
 theorem decryptWhole_wf {key : Bytes} {e r : Env} (he : WF h e)
     (hr : decryptWhole h A key e = .ok r) : WF h r := by
   obtain ⟨x, h1, h2⟩ := Res.bind_eq_ok.1 hr
   exact unwrap_wf h (decryptSubject_wf h A he h1) h2
+example : ∃ r, decryptWhole toyHash idAead [1] sEncW = .ok r ∧ WF toyHash r := by
+  obtain ⟨r, hr⟩ := sDecryptWhole_ok
+  exact ⟨r, hr, decryptWhole_wf _ _ sEncW_inv.1 hr⟩
 
 /-! ### 3. histories -/
 
@@ -454,6 +542,10 @@ theorem applyOp_wf {o : Op} {e r : Env} (he : WF h e) (ha : ∀ a ∈ o.args, WF
   case uncompressSubject => exact uncompressSubject_wf h Z he hr
   case decryptSubject key => exact decryptSubject_wf h A he hr
   case decryptWhole key => exact decryptWhole_wf h A he hr
+example : ∃ r, applyOp toyHash idAead idDeflate (.addAssertion sA3) sNode = .ok r ∧ WF toyHash r := by
+  obtain ⟨r, hr⟩ := addAssertionEnvelope_isOk toyHash (e := sNode) sA_slotOk.2.2
+  exact ⟨r, hr, applyOp_wf toyHash idAead idDeflate (o := .addAssertion sA3) sNode_inv.1
+    (by simp [Op.args, sA3_inv.1]) hr⟩
 
 /-- every envelope returned at any step of any finite history is `WF` -/
 theorem history_wf (ops : List Op) : ∀ (e0 : Env), WF h e0 → (∀ o ∈ ops, ∀ a ∈ o.args, WF h a) →
@@ -472,6 +564,15 @@ theorem history_wf (ops : List Op) : ∀ (e0 : Env), WF h e0 → (∀ o ∈ ops,
     · rename_i x hx
       simp only [List.mem_singleton] at hr
       exact absurd hr.symm (hx r)
+/-- a history whose hypotheses hold and which does produce results (decoding steps included) -/
+example :
+    (∀ r, Res.ok r ∈ runHistory toyHash idAead idDeflate sNode
+        [.wrap, .compress, .uncompress, .unwrap, .addAssertion sA3, .removeAssertion sA1, .elide] →
+      WF toyHash r) ∧
+    Res.ok (wrap toyHash sNode) ∈ runHistory toyHash idAead idDeflate sNode
+        [.wrap, .compress, .uncompress, .unwrap, .addAssertion sA3, .removeAssertion sA1, .elide] :=
+  ⟨history_wf _ _ _ _ sNode sNode_inv.1 (by simp [Op.args, sA3_inv.1, sA1_inv.1]),
+   by simp [runHistory, applyOp]⟩
 
 /-- everything built from constructors and operations, arguments built the same way
 (the histories form a DAG, not a list), is `WF` -/
@@ -481,6 +582,10 @@ theorem produced_wf {dec : Bool} {e : Env} (hp : Produced h A Z dec e) : WF h e 
   | knownValue v => exact newKnownValue_wf h v
   | elided d _ => exact newElided_wf h d
   | op o e r _ _ _ hr ihe iha => exact applyOp_wf h A Z ihe iha hr
+example : Produced toyHash idAead idDeflate false sA1 :=
+  .op (.assertionWithObject (newLeaf toyHash (.uint 10))) (newKnownValue toyHash 1) sA1 (.knownValue 1)
+    (by intro a ha; simp only [Op.args, List.mem_singleton] at ha; subst ha; exact .leaf _)
+    (fun _ => rfl) rfl
 
 /-! ### 4. the reported digest is the specification's digest -/
 
@@ -525,11 +630,34 @@ end
 defines for its structure -/
 theorem wf_digest_eq_spec {e : Env} (hi : Inv h e) : e.digest = specDigest h e :=
   digest_eq_spec_aux h e hi.1 hi.2
+example : sNode.digest = specDigest toyHash sNode := wf_digest_eq_spec _ sNode_inv
 
 /-- ... and so does each of its elements -/
 theorem wf_digest_eq_spec_elements {e : Env} (hi : Inv h e) :
     ∀ x ∈ elements e, x.digest = specDigest h x :=
   fun x hx => digest_eq_spec_aux h x (mem_elements_wf h e x hi.1 hx) (mem_elements_canon e x hi.2 hx)
+example : sA1.digest = specDigest toyHash sA1 :=
+  wf_digest_eq_spec_elements _ sNode_inv sA1 (by simp [sNode, elements, elementsList, sA1, sA2, newAssertion])
+
+/-- `WF` alone does not give the specification's digest: the ascending order of the
+assertions (`Canon`) is needed, which is why `wf_digest_eq_spec` is stated for `Inv`
+(the abridged statement in DESIGN Appendix D with `WF` only is false).  Witness: the toy
+hash and a node whose digest was computed over its assertions in descending order. -/
+theorem wf_alone_digest_ne_spec :
+    WF toyHash sUnsorted ∧ sUnsorted.digest ≠ specDigest toyHash sUnsorted := by
+  refine ⟨by simp [sUnsorted, sA1_inv.1, sA2_inv.1, sSubj_inv.1], ?_⟩
+  have e0 := wf_digest_eq_spec toyHash sSubj_inv
+  have e1 := wf_digest_eq_spec toyHash sA1_inv
+  have e2 := wf_digest_eq_spec toyHash sA2_inv
+  have hlt : sA2.digest.val < sA1.digest.val := by decide +kernel
+  have hne : toyHash.ofDigests [sSubj.digest, sA1.digest, sA2.digest] ≠
+      toyHash.ofDigests [sSubj.digest, sA2.digest, sA1.digest] := by decide +kernel
+  have hs : specDigest toyHash sUnsorted =
+      toyHash.ofDigests [sSubj.digest, sA2.digest, sA1.digest] := by
+    simp only [sUnsorted, specDigest, specDigestList, ← e0, ← e1, ← e2]
+    rw [mergeSort_pair_swap _ _ hlt]
+  rw [hs]
+  exact hne
 
 /-! ### 5. route independence: the cached digests are a function of the content -/
 
@@ -595,6 +723,11 @@ end
 
 theorem route_independent {a b : Env} (ha : WF h a) (hb : WF h b) (he : erase a = erase b) : a = b :=
   erase_inj h a b ha hb he
+/-- two routes to the same content: the node written out, and the node assembled by `mkNode` -/
+example : sNode = mkNode toyHash sSubj [sA2, sA1] :=
+  route_independent toyHash sNode_inv.1
+    (mkNode_wf_of _ sSubj_inv.1 (by simp [sA1_inv.1, sA2_inv.1]))
+    (by rw [← sNode_eq_mkNode])
 
 /-- in particular two assembly routes to the same content report the same digest -/
 theorem route_independent_digest {a b : Env} (ha : WF h a) (hb : WF h b) (he : erase a = erase b) :
